@@ -43,23 +43,24 @@ def main():
         bad = common.gate_sources()
         if bad:
             proof_broken.append("source gate: " + "; ".join(bad[:5]))
-        # one critical section for: regenerating facts from the tree under test, the build, and the re-check of the
-        # property file -- concurrent checks (of other properties, or of other trees) must not interleave here
+        # one critical section for regenerating facts from the tree under test and the build -- concurrent checks
+        # (of other properties, or of other trees) must not interleave here
         with common.BuildLock():
             for pre in frag.get("pre_build", []):
                 # e.g. regenerate facts from /repo (translator), module path relative to harness/
                 mod = importlib.import_module(pre)
                 mod.generate(ctx)
             ok, log, cmd = common.make_target(prop_file + "o", jobs=8 if tier == "quick" else 16)
-            checker_cmds.append(cmd)
-            if not ok:
-                proof_broken.append("build of %s failed: %s" % (prop_file, log[-1500:]))
-                thms = []
-            else:
-                ok2, thms, log2, cmd2 = common.check_props_file(prop_file)
-                checker_cmds.append(cmd2)
-                if not ok2:
-                    proof_broken.append("re-check of %s failed: %s" % (prop_file, log2[-1500:]))
+        checker_cmds.append(cmd)
+        if not ok:
+            proof_broken.append("build of %s failed: %s" % (prop_file, log[-1500:]))
+            thms = []
+        else:
+            # the re-check only reads the compiled dependencies and writes under build/props: outside the lock
+            ok2, thms, log2, cmd2 = common.check_props_file(prop_file)
+            checker_cmds.append(cmd2)
+            if not ok2:
+                proof_broken.append("re-check of %s failed: %s" % (prop_file, log2[-1500:]))
         obligations = len(thms)
         for name, axs in thms:
             axioms_seen[name] = axs
